@@ -277,6 +277,12 @@ pub fn run_script(input: &Value) -> Case {
     if !hung_up {
         peer.pause(end == "drop_paused");
     }
+    if end == "drop_flood" {
+        // a terminal that keeps sending events (mouse motion, typing) and never answers the sync request
+        peer.ctl(Ctl::AnswerDa(false));
+        peer.ctl(Ctl::Flood { every_ms: 40, count: 220 });
+        std::thread::sleep(Duration::from_millis(60));
+    }
     if end == "run_err" || end == "render_quit" {
         // leave through Terminal::run / run_render returning an error, then drop
         let term = sess.term.as_mut().unwrap();
@@ -318,13 +324,16 @@ pub fn run_script(input: &Value) -> Case {
     }
     // a session that ran into a wait it was not scripted to have (an infinite poll saved by the watchdog, a drop
     // that sat out dispose's one-second polls with the peer reading)
-    if obs_coq.iter().any(|o| o == "OH") || (end != "drop_paused" && !hung_up && drop_ms > 900) {
+    if obs_coq.iter().any(|o| o == "OH") || (end != "drop_paused" && end != "drop_flood" && !hung_up && drop_ms > 900) {
         tags.push("unexpected_wait".into());
     }
     let tail_txt: String = tail.iter().rev().take(120).rev().map(|b| if *b == 0x1b { "^[".to_string() } else if (32..127).contains(b) { (*b as char).to_string() } else { format!("<{}>", b) }).collect();
     j["impl"] = json!({"polls": obs_json, "restored": restored, "closing_delivered": closing, "drop_ms": drop_ms,
                        "left_through": via.as_ref().map(|v| v.1.clone()), "after_drop_tail": tail_txt});
     let endk = if hung_up { "EHup" } else if end == "drop_paused" { "EDropPaused" } else { "EDrop" };
+    if end == "drop_flood" {
+        return Case { coq: format!("CF {} {}", drop_ms, cbool(restored)), json: j, tags, nontrivial: true };
+    }
     let coq = match &via {
         None => format!("CS {} {} {} {} {}", clist(acts_coq), clist(obs_coq), endk, cbool(restored), cbool(closing)),
         Some((c, _)) => format!("CR {} {} {} {} {}", clist(acts_coq), clist(obs_coq), c, cbool(restored), cbool(closing)),
@@ -460,6 +469,7 @@ fn gen_script(rng: &mut Rng) -> Value {
     let n = 3 + rng.below(14);
     let mut paused = false;
     let mut fresh = false; // a request was made since the last poll: something is certainly outstanding
+    let mut fresh_wake = false; // ... a wake request
     let mut quiet = true; // nothing can be outstanding: every request so far was followed by enough polls
     let mut since = 0usize; // polls since the last request
     let mut owed = 0usize; // upper bound on the events still to come
@@ -470,6 +480,7 @@ fn gen_script(rng: &mut Rng) -> Value {
                 let top = if rng.chance(1, 5) { 400 } else { 5 };
                 acts.push(json!(["wake", 1 + rng.below(top)]));
                 fresh = true;
+                fresh_wake = true;
                 owed += 1;
             }
             18..=33 => {
@@ -502,7 +513,7 @@ fn gen_script(rng: &mut Rng) -> Value {
             62..=66 => {
                 // a request that arrives while this thread sits in an infinite poll: only when nothing else can be
                 // outstanding, so that the latency measured is the request's
-                if quiet && owed == 0 {
+                if quiet && owed == 0 && !paused {
                     let d = 2 + rng.below(30);
                     acts.push(json!([if rng.chance(2, 3) { "poll_wake" } else { "poll_winch" }, d]));
                 } else {
@@ -510,14 +521,16 @@ fn gen_script(rng: &mut Rng) -> Value {
                     owed = owed.saturating_sub(1);
                 }
                 fresh = false;
+                fresh_wake = false;
             }
             _ => {
-                // an infinite poll only when it is certain to return: something is outstanding (since the third fix
-                // also with the peer paused and output stalled)
-                let inf = fresh && rng.chance(1, 3);
+                // an infinite poll only when it is certain to return: a wake request is outstanding (it ends the
+                // poll also with the peer paused and output stalled), or something else is and the peer reads
+                let inf = (fresh_wake || (fresh && !paused)) && rng.chance(1, 3);
                 let ms: i64 = if inf { -1 } else if rng.chance(3, 5) { 0 } else { 1 + rng.below(8) as i64 };
                 acts.push(json!(["poll", ms]));
                 fresh = false;
+                fresh_wake = false;
                 owed = owed.saturating_sub(1);
             }
         }
@@ -558,7 +571,9 @@ pub fn generate(rng: &mut Rng, n: usize, _tier: &str) -> Vec<Value> {
     v.push(json!({"acts": [["pause", true], ["write", 300000], ["poll", 3]], "end": "drop_paused"}));
     v.push(json!({"stress": {"threads": 4, "wakes": 300}}));
     v.push(json!({"blocked_wake": true}));
-    v.push(json!({"open_fails": true}));
+    // (corpus/C17: failed open, event flood at drop, a key arriving during a 1 MiB frame)
+    // ... with the peer stalled only a wake request cuts the wait short, the key follows it
+    v.push(json!({"acts": [["pause", true], ["write", 200000], ["in", "k"], ["wake", 1], ["poll", -1], ["poll", 20], ["pause", false], ["poll", 5]], "end": "drop"}));
     v.push(json!({"acts": [["poll_wake", 20], ["poll", 0], ["poll_winch", 15], ["poll", 0]], "end": "drop"}));
     v.push(json!({"acts": [["write", 9000], ["wake", 2], ["eagain", 500], ["poll", -1], ["poll", 0], ["poll", 3]], "end": "drop"}));
     v.push(json!({"acts": [["write", 3000], ["in", "ab"], ["poll", 0], ["write", 50], ["eagain", 400], ["poll", 20], ["poll", 0], ["poll", 0]], "end": "drop"}));
